@@ -68,6 +68,8 @@ class Unit:
         self.hints_lost = {}  # fn -> [messages]: proof scaffolding whose anchor no longer exists
         self.probes = []      # reachability probes of the probe run (vacuity="probe")
         self.pins = []        # hashes of the text replaced by wildcard edits
+        self.assume_pins = []        # hashes of /repo functions whose contract is ASSUMED (external stubs)
+        self.assumption_changed = [] # messages: an assumed function changed
         self.template = None
 
     def text(self):
@@ -94,6 +96,20 @@ class Unit:
 
 
 _srcs = {}
+_apins = {}
+
+
+def _assume_pins():
+    p = os.path.join(os.path.dirname(os.path.dirname(os.path.abspath(__file__))), "contracts", "assume_pins.json")
+    if "d" not in _apins:
+        import json
+        try:
+            with open(p) as f:
+                _apins["d"] = json.load(f)
+        except (OSError, ValueError):
+            _apins["d"] = {}
+    return _apins["d"]
+
 
 
 def load_src(repo, rel):
@@ -453,6 +469,31 @@ def expand(template_path, repo, vacuity=False):
             continue
         if d.startswith("RLIMIT"):
             unit.rlimit = int(d.split()[1])
+            i += 1
+            continue
+        if d.startswith("ASSUME"):
+            # `//@@ ASSUME file | scope | name`: the external stub / spec function next to this line states an ASSUMED contract
+            # of that /repo function, written against one version of its body: the body is pinned by a hash
+            # (contracts/assume_pins.json, tools/setpins.py).  A changed body => the assumption must be reviewed => undecided.
+            parts = [p.strip() for p in d[6:].split("|")]
+            rel, scope, name = parts[0], parts[1], parts[2]
+            key = "%s | %s | %s" % (rel, scope, name)
+            try:
+                sf = load_src(repo, rel)
+                loc = sf.find_fn(scope, name)
+                body = " ".join(x.text for x in sf.toks[loc["fn"]:loc["close"] + 1] if x.kind not in ("comment", "ws"))
+                pin = hashlib.sha256(body.encode()).hexdigest()[:12]
+            except (KeyError, GenError) as e:
+                pin = None
+            want = _assume_pins().get(key)
+            unit.assume_pins.append({"key": key, "pin": pin, "declared": want})
+            if not os.environ.get("VERIF_SETPINS"):
+                if pin is None:
+                    unit.assumption_changed.append("%s: the function an assumed contract describes no longer exists" % key)
+                elif want is None:
+                    raise GenError("%s: ASSUME without a pin in contracts/assume_pins.json: review the assumed contract, then run tools/setpins.py" % key)
+                elif want != pin:
+                    unit.assumption_changed.append("%s: the body changed since its ASSUMED contract was reviewed (pin %s, now %s)" % (key, want, pin))
             i += 1
             continue
         if d.startswith("TYPE") or d.startswith("CONST"):
